@@ -19,6 +19,7 @@ def faultEnv (kind k len : Nat) : Bool × Option (List Nat) × List WriteEvt :=
   | 13 => (true, some ((List.range len).map fun i => if i < 16 then 35 else i % 256), [])
   | 14 => (true, some ((List.range (len / 2)).map (· % 256)), [])
   | 15 => (true, some ((List.range len).map (· % 256)), [])
+  | 16 => (true, none, [])     -- no fault (the rendering embeds a logo by relative path; compared in the child)
   | _ => (false, none, [])
 
 /-- `file <kind> <k> <renderer> <size> => <ok|err|trap|crash…> <absent|equal|prefix:n|differs:n> <len>` -/
@@ -28,7 +29,7 @@ def opFile (args res : List String) : Verdict :=
     let kind := kind.toNat!
     let k := k.toNat!
     let len := len.toNat!
-    let faultFree := kind == 0 || (kind ≥ 11 && kind ≤ 15) || (kind == 5 && k ≥ len)
+    let faultFree := kind == 0 || (kind ≥ 11 && kind ≤ 16) || (kind == 5 && k ≥ len)
     let spec := firstFail [
       (if result == "ok" ∨ result == "err" then none else some s!"to_file-{result}"),
       (if result == "ok" ∧ state != "equal" then some s!"Ok-returned-but-file-is-{state}" else none),
